@@ -401,6 +401,12 @@ func (c20Checker) Run(tp *Tapes, opt RunOpt) *Outcome {
 	for i := range sets {
 		sets[i] = pongo2.NewSet(fmt.Sprintf("S%d", i), w.MakeLoader(i, LoaderSpec{Kind: sp.Loaders[i], Disk: 0}))
 		sets[i].Globals["setname"] = fmt.Sprintf("S%d", i)
+		// distinguishing configuration per set (isolation oracle): a ban and an option
+		if err := sets[i].BanTag([]string{"lorem", "templatetag"}[i%2]); err != nil {
+			out.HarnessErr = "BanTag on a fresh set failed: " + err.Error()
+			return out
+		}
+		sets[i].Options.TrimBlocks = i%2 == 0
 	}
 	var hist []c20HistOp
 	type opKey struct{ task, op int }
@@ -649,6 +655,30 @@ func (c20Checker) Run(tp *Tapes, opt RunOpt) *Outcome {
 				out.Porcupine[1]++
 				key := c20FirstIllegal(model, sub)
 				out.addViolation("lin_illegal", key, fmt.Sprintf("history of set S%d is not linearizable w.r.t. the cache model", si), nil, c20Sample(sp, sub))
+			}
+		}
+
+		// ---- oracle: bans and options of one set never leak into another -------------------
+		if out.HarnessErr == "" {
+			for si, set := range sets {
+				for bi, src := range []string{"{% lorem 1 w %}", "{% templatetag openblock %}"} {
+					_, err := set.FromString(src)
+					wantErr := bi == si%2
+					if (err != nil) != wantErr {
+						out.addViolation("cross_set_config", "bans", fmt.Sprintf("set S%d: compiling %q gave error=%v, expected error=%v (each set banned a different tag)", si, src, err, wantErr), wantErr, err != nil)
+					}
+				}
+				t, err := set.FromString("{% if true %}\nX{% endif %}")
+				if err == nil {
+					got, _ := t.Execute(nil)
+					want := "\nX"
+					if si%2 == 0 {
+						want = "X"
+					}
+					if got != want {
+						out.addViolation("cross_set_config", "options", fmt.Sprintf("set S%d renders %q, expected %q (TrimBlocks differs per set)", si, got, want), want, got)
+					}
+				}
 			}
 		}
 
